@@ -1,2 +1,4 @@
 """fail-closed python-ast -> Gallina translators; ALL maps Gen file name -> function returning Coq text."""
-ALL = {}
+from vlib.translators import layout
+
+ALL = {"GenLayout": layout.translate}
